@@ -321,3 +321,117 @@ Definition rows_ok (descs : list bool) (rows : list row) (out : list N) : bool :
 (* the same for ORDER BY (?x0 * 1), ... *)
 Definition expr_rows_ok (descs : list bool) (rows : list row) (out : list N) : bool :=
   rows_ok descs (map (map times_one) rows) out.
+
+(* ================= end-to-end queries (harness kinds q:..) ================= *)
+(* ---------- the operators '<' '<=' '>' '>=' of expressions: EvalResult::sparql_compare ----------
+   Two numbers are never an error: every operator is false when they have no order (NaN). *)
+Definition sparql_compare c64 c32 (pred : comparison -> bool) (a b : item) : option bool :=
+  match val a, val b with
+  | Some (VNum x), Some (VNum y) =>
+      Some (match num_partial_cmp c64 c32 x y with Some c => pred c | None => false end)
+  | _, _ => option_map pred (sparql_cmp c64 c32 a b)
+  end.
+Definition is_lt (c : comparison) : bool := match c with Lt => true | _ => false end.
+(* Less(lhs, rhs) on two keys: an unbound operand is an evaluation error *)
+Definition lt_keys c64 c32 (k1 k2 : option item) : option bool :=
+  match k1, k2 with
+  | Some a, Some b => sparql_compare c64 c32 is_lt a b
+  | _, _ => None
+  end.
+(* the comparison involves no integer/decimal -> float conversion (the abstracted c64 / c32) *)
+Definition is_bin_float (n : num) : bool := match n with Float _ | Double _ => true | _ => false end.
+Definition conv_free (a b : item) : bool :=
+  match val a, val b with
+  | Some (VNum x), Some (VNum y) => Bool.eqb (is_bin_float x) (is_bin_float y)
+  | _, _ => true
+  end.
+(* observed answer of the engine to  key1 < key2 : 0 false, 1 true, 2 error (BIND leaves the variable unbound) *)
+Definition lt_code (o : option bool) : N :=
+  match o with Some false => 0 | Some true => 1 | None => 2 end.
+Definition lt_entry_ok (k1 k2 : option item) (code : N) : bool :=
+  (* what the property needs: a pair that the engine declares '<' is put in that order by ORDER BY *)
+  (if N.eqb code 1 then match key_cmp order_by k1 k2 with Lt => true | _ => false end else true)
+  && (* and the modelled operator itself, when its result does not depend on c64 / c32 *)
+  match k1, k2 with
+  | Some a, Some b =>
+      if conv_free a b then N.eqb (lt_code (lt_keys c64_rne c32_rne k1 k2)) code else true
+  | _, _ => N.eqb code 2
+  end.
+Definition key_at (k : N) (r : row) : option item := nth (N.to_nat k) r None.
+Fixpoint forallb2 {A B} (f : A -> B -> bool) (l : list A) (m : list B) : bool :=
+  match l, m with
+  | [], [] => true
+  | x :: l', y :: m' => f x y && forallb2 f l' m'
+  | _, _ => false
+  end.
+(* [table] line i, column j: the engine's answer to  key_k(row i) < key_k(row j) *)
+Definition lt_table_ok (rows : list row) (k : N) (table : list (list N)) : bool :=
+  forallb2 (fun r1 line =>
+              forallb2 (fun r2 code => lt_entry_ok (key_at k r1) (key_at k r2) code) rows line)
+           rows table.
+
+(* ---------- Slice above OrderBy (LIMIT / OFFSET), Distinct above OrderBy ---------- *)
+Definition rows_at (rows : list row) (out : list N) : list row :=
+  map (fun i => nth (N.to_nat i) rows []) out.
+Definition sorted_ok (descs : list bool) (rs : list row) : bool :=
+  all_pairs_le (leb_of (cmp_bindings_with order_by descs)) rs.
+(* exec.rs slice: iter.skip(start).take(length) *)
+Definition window {A} (start : N) (len : option N) (l : list A) : list A :=
+  let t := skipn (N.to_nat start) l in
+  match len with Some n => firstn (N.to_nat n) t | None => t end.
+(* [full]: the output of the query without its window; [w]: the output with it *)
+Definition window_ok (descs : list bool) (rows : list row) (full : list N)
+                     (start : N) (len : option N) (w : list N) : bool :=
+  list_eqb N.eqb w (window start len full) && sorted_ok descs (rows_at rows w).
+
+(* ---------- integer arithmetic: value/_number.rs Add / Sub / Mul / Neg on NativeInt and BigInt ----------
+   coercing_operator tries isize::checked_op and falls back to the fbig closure on overflow; fbig
+   wraps its result with From<BigInt> WITHOUT normalising it: as soon as one operand is a BigInt the
+   result is a BigInt, even when it fits in an isize (2^63 + (-2^63 + 3) is BigInt 3).
+   Neg: checked_neg, else the opposite as a BigInt; the opposite of a BigInt is a BigInt. *)
+Definition isize_min : Z := (-9223372036854775808)%Z.
+Definition isize_max : Z := 9223372036854775807%Z.
+Definition fits_isize (z : Z) : bool := (isize_min <=? z)%Z && (z <=? isize_max)%Z.
+Inductive aop := OAdd | OSub | OMul | ONeg.        (* ONeg: unary minus of the first operand *)
+Definition z_op (o : aop) (x y : Z) : Z :=
+  match o with OAdd => x + y | OSub => x - y | OMul => x * y | ONeg => - x end%Z.
+Definition int_val (n : num) : option Z :=
+  match n with NativeInt z | BigInt z => Some z | _ => None end.
+Definition int_arith (o : aop) (a b : num) : option num :=    (* None: not an integer operation *)
+  match o with
+  | ONeg => match a with
+            | NativeInt x => Some (if fits_isize (- x) then NativeInt (- x) else BigInt (- x))
+            | BigInt x => Some (BigInt (- x))
+            | _ => None
+            end
+  | _ => match a, b with
+         | NativeInt x, NativeInt y =>
+             let r := z_op o x y in Some (if fits_isize r then NativeInt r else BigInt r)
+         | NativeInt x, BigInt y | BigInt x, NativeInt y | BigInt x, BigInt y =>
+             Some (BigInt (z_op o x y))
+         | _, _ => None
+         end
+  end.
+(* same variant and same integer *)
+Definition int_repr_eqb (a b : num) : bool :=
+  match a, b with
+  | NativeInt x, NativeInt y | BigInt x, BigInt y => Z.eqb x y
+  | _, _ => false
+  end.
+Definition num_of_key (k : option item) : option num :=
+  match k with
+  | Some a => match val a with Some (VNum n) => Some n | _ => None end
+  | None => None
+  end.
+(* operands and observed result (the value cached in the term that BIND produced) of  ?a OP ?b *)
+Definition int_arith_entry_ok (o : aop) (ka kb kr : option item) : bool :=
+  match num_of_key ka, (match o with ONeg => Some (NativeInt 0) | _ => num_of_key kb end) with
+  | Some x, Some y =>
+      match int_arith o x y with
+      | Some r => match num_of_key kr with Some r' => int_repr_eqb r r' | None => false end
+      | None => true
+      end
+  | _, _ => true
+  end.
+Definition int_arith_ok (o : aop) (l : list (option item * option item * option item)) : bool :=
+  forallb (fun t => match t with (ka, kb, kr) => int_arith_entry_ok o ka kb kr end) l.
